@@ -15,4 +15,11 @@ fi
 if [ "$TIER" = "thorough" ]; then
   exec "$HERE/thorough.sh" "$PROP"
 fi
-exec "$HERE/bin/finlint" -repo "${VERIF_REPO:-/repo}" -verif "$HERE" -property "$PROP" -tier "$TIER"
+"$HERE/bin/finlint" -repo "${VERIF_REPO:-/repo}" -verif "$HERE" -property "$PROP" -tier "$TIER"
+RC=$?
+if [ $RC -ne 0 ] && [ $RC -ne 1 ]; then
+  # the checker itself died (panic, stack overflow, killed): nothing was decided, and undecided fails
+  echo "VIOLATION property=$PROP replay=$HERE/evidence/$PROP.json (checker ended with status $RC before deciding: undecided)"
+  exit 1
+fi
+exit $RC
